@@ -28,6 +28,25 @@ func anyGenome(g *G) (*genetics.Genome, string) {
 		name := startGenomeFiles[g.intn(len(startGenomeFiles))]
 		return loadStartGenome(name), "file:" + name
 	case c < 16:
+		if g.chance(0.5) {
+			// hand-built modular genome whose module wires carry recurrence flags and traits (the YAML reader only
+			// makes plain wires of weight 1)
+			gn := handGenome(g, g.intn(100))
+			for k := 1 + g.intn(2); k > 0; k-- {
+				addModule(g, gn, g.chance(0.7), false)
+			}
+			for _, cg := range gn.ControlGenes {
+				for _, l := range append(append([]*network.Link{}, cg.ControlNode.Incoming...), cg.ControlNode.Outgoing...) {
+					if g.chance(0.3) {
+						l.IsRecurrent = !l.IsRecurrent
+					}
+					if g.chance(0.3) && len(gn.Traits) > 0 {
+						l.Trait = gn.Traits[g.intn(len(gn.Traits))]
+					}
+				}
+			}
+			return gn, "modular:hand"
+		}
 		return loadYamlGenome("test_seed_genome.yml"), "modular"
 	case c < 17:
 		return loadYamlGenome("xorstartgenes.yml"), "yaml"
